@@ -265,7 +265,12 @@ def materialise(w, base):
     for p, tgt in sorted(w.symlinks.items()):
         fp = path_bytes(root, p)
         os.makedirs(os.path.dirname(fp), exist_ok=True)
-        os.symlink(path_bytes(root, tgt), fp)
+        if any(tuple(p[:len(sd)]) == tuple(sd) for sd in w.scan):
+            # the directory walk skips symbolic links while the model's tree has only names of inodes: below a scan
+            # directory the extra name is made a hard link (the model covers symbolic links at export images only)
+            os.link(path_bytes(root, tgt), fp)
+        else:
+            os.symlink(path_bytes(root, tgt), fp)
     for p, size in sorted(w.sparse.items()):
         fp = path_bytes(root, p)
         os.makedirs(os.path.dirname(fp), exist_ok=True)
@@ -595,6 +600,7 @@ def world_from_snapshot(w, dirs, files):
     v.crash = None; v.faults = []
     v.dirs = set(tuple(d) for d in dirs)
     v.files = {}
+    v.symlinks = {}; v.sparse = {}     # the snapshot presents a link under its target's identity: re-created as a hard link
     groups = {}
     for p, (content, ino) in files.items():
         groups.setdefault(ino, []).append(p)
